@@ -220,3 +220,23 @@ Fixpoint gfinal (fx : fixes) (cf : codec_fns) (rf : rec_fns) (sf : sps_fns) (acf
     | _ => None
     end
   end.
+
+(* total work of a history (None if a step did not return) *)
+Fixpoint gtotal (fx : fixes) (cf : codec_fns) (rf : rec_fns) (sf : sps_fns) (acfg : amf_cfg) (c : grp_cfg)
+         (g : grp_st) (l : list gev) : option N :=
+  match l with
+  | [] => Some 0
+  | e :: t =>
+    match gstep fx cf rf sf acfg c g e with
+    | Ok (g', k) => match gtotal fx cf rf sf acfg c g' t with Some r => Some (k + r) | None => None end
+    | _ => None
+    end
+  end.
+
+(* size of what a history publishes: sum of (1 + payload length), number of publishes, number of rtmp / http-flv joins *)
+Fixpoint pubs_cost (l : list gev) : N :=
+  match l with [] => 0 | GPub m :: t => msg_cost m + pubs_cost t | _ :: t => pubs_cost t end.
+Fixpoint pubs_count (l : list gev) : N :=
+  match l with [] => 0 | GPub _ :: t => 1 + pubs_count t | _ :: t => pubs_count t end.
+Fixpoint joins_count (l : list gev) : N :=
+  match l with [] => 0 | GJoinRtmp :: t => 1 + joins_count t | GJoinFlv :: t => 1 + joins_count t | _ :: t => joins_count t end.
